@@ -521,6 +521,13 @@ def cli_shard(args):
         elif k < 0.38:
             v = [common.rand_value(rng, 1, 3) for _ in range(rng.randint(0, 3))]
             family, data = "fancy_array", fancy(v, rng).encode("utf-8")
+        elif k < 0.46:
+            # failing programs with traces of every length (the rendered trace is cropped by -t)
+            depth = rng.choice([0, 1, 2, 3, 5, 9, 30])
+            fail = rng.choice(["error 'boom'", "1 + {}", "[1][5]", "{a: 1}.b", "std.parseInt('x')", "assert false : 'a'; 1", "std.trace('t', error 'after-trace')",
+                               "local a = b, b = a; a", "std.map(function(x) x.y, [1])[0]", "{assert self.v > 1 : 'inv', v: 1}.v"])
+            prog = "local f(n) = if n == 0 then %s else [f(n - 1)][0]; f(%d)" % (fail, depth)
+            family, data = "failing_program", prog.encode("utf-8")
         if k < 0.38 and rng.random() < 0.3:
             data = b"function(p=1) " + data
         if b"\x00" in data and rng.random() < 0.5:
@@ -536,8 +543,8 @@ def cli_shard(args):
                 argv += ["-o", os.path.join(scratch, "o%d.json" % i)]
         if rng.random() < 0.3:
             argv += ["-s", str(rng.choice([0, 1, 5, 50, 500, 5000]))]
-        if rng.random() < 0.3:
-            argv += ["-t", str(rng.choice([0, 1, 2, 3, 10]))]
+        if rng.random() < (0.8 if family == "failing_program" else 0.3):
+            argv += ["-t", str(rng.choice([0, 0, 1, 2, 3, 4, 10, 2 ** 31, 2 ** 64 - 1]))]
         if rng.random() < 0.2:
             argv += [rng.choice(["-S", "-y", "--no-trailing-newline"])]
         used = set()
